@@ -6,6 +6,7 @@ import (
 	"time"
 
 	"github.com/pion/ice/v4"
+	"github.com/pion/stun/v3"
 
 	"verif/sim/core"
 	"verif/sim/rig"
@@ -161,6 +162,9 @@ func runC04(c *core.Ctx) {
 		if res != simnet.Delivered || to == nil {
 			return
 		}
+		if dg.Note == "c04-rejected-stun" {
+			return // STUN the agent has to discard (wrong integrity) is not "hearing from" the remote
+		}
 		for _, x := range ags {
 			if to.Host() == x.host {
 				x.lastFrom[dg.Src] = c.Now()
@@ -196,6 +200,12 @@ func runC04(c *core.Ctx) {
 		_ = d.Signal(d.B, d.A, cand)
 	}
 	d.S.Settle()
+	if c.T.Bias(1, 4, "late-start") {
+		// the application takes its time between creating (and gathering for) the agent and starting it:
+		// every deadline of the Checking state runs from the moment Checking is entered, not from construction
+		d.S.Advance([]time.Duration{300 * time.Millisecond, 2 * time.Second, 20 * time.Second}[c.T.Choose(3, "startdelay")])
+		c.Fault("late-start")
+	}
 	d.A.Conn, err = d.A.A.StartDial(d.B.Ufrag, d.B.Pwd)
 	if err != nil {
 		c.Failf("harness/start", "%v", err)
@@ -316,6 +326,7 @@ func runC04(c *core.Ctx) {
 		}
 	}
 
+	seqRej := uint32(0)
 	steps := c.T.Range(60, 400, "steps")
 	for i := 0; i < steps && !c.Failed(); i++ {
 		// application data is traffic too: it keeps the selected remote "heard" exactly like STUN does
@@ -330,6 +341,29 @@ func runC04(c *core.Ctx) {
 			d.S.Settle()
 		}
 		dropMuted()
+		if c.T.Bias(1, 10, "rejected-stun") {
+			// STUN that the agent must discard keeps arriving from the selected remote (a peer that has moved on
+			// to other credentials, or somebody spoofing its address): it does not end, or postpone, the silence
+			for _, x := range ags {
+				if !x.muted || x.closed || x.h.Conn == nil {
+					continue
+				}
+				if l, r, ok := x.h.SelectedPair(); ok {
+					seqRej++
+					other := d.A
+					if x.h == d.A {
+						other = d.B
+					}
+					pl := rig.MsgSpec{Class: stun.ClassRequest, Method: stun.MethodBinding, Seq: 900000 + seqRej,
+						Username: rig.Str(x.h.Ufrag + ":" + other.Ufrag), Priority: rig.U32(2130706431), Controlled: rig.U64(5),
+						Key: "not-the-password-not-the-password", Integrity: rig.IntRight}.Build()
+					d.S.Deliver(d.W.Inject(r, l, pl, "c04-rejected-stun"))
+					c.Fault("rejected-stun-during-silence")
+				}
+			}
+			// whatever the agent answered to it is dropped with the rest
+			dropMuted()
+		}
 		pool := d.S.Eligible()
 		act := c.T.Pick([]int{6, 5, 1, 1}, "act")
 		if len(pool) > 0 && act == 0 {
